@@ -6,8 +6,9 @@ from pyvc.interp import ClassRef
 
 GROUPS = []
 
-# character classes the tokenizer distinguishes: ESC, '[', a parameter digit, ';', the final bytes 'm' and 'A', plain 'x'
-TOK_ALPHABET = (27, 91, 49, 59, 109, 65, 120)
+# character classes the tokenizer distinguishes: ESC, '[', a parameter digit, ';', the final bytes 'm' and 'A', plain 'x',
+# and the bytes at the edges of the final-byte range 0x40-0x7E
+TOK_ALPHABET = (27, 91, 49, 59, 109, 65, 120, 63, 64, 126, 127)  # + boundary bytes ? @ ~ DEL
 
 
 def sym_text(c, n, alphabet, prefix='c'):
@@ -33,6 +34,8 @@ def b1_items(tier):
                 if n > 5 and acc == 'mA':
                     continue
                 out.append([n, acc, allow])
+    if tier == 'quick':
+        out.append([6, 'm', 0])   # the configuration AnsiString parses with, one character longer
     return out
 
 
@@ -235,14 +238,29 @@ def j1_items(tier):
                 out.append([k, form, ae])
     out.append([2, 'strlist', 0])
     out.append([3, 'strlist', 1])
+    # a complete 24-bit group next to one more code (six tokens; the group's position is fixed to keep the paths few)
+    for form in ('list', 'str'):
+        for ae in (0, 1):
+            out.append([6, form, ae, 'rgb-first'])
+            out.append([6, form, ae, 'rgb-last'])
+            out.append([4, form, ae, 'c256-last'])
     return out
 
 
 def j1_task(envr, item):
-    k, form, ae = item
+    k, form, ae = item[0], item[1], item[2]
+    pattern = item[3] if len(item) > 3 else None
 
     def body(c):
         vals = [c.named_int('v%d' % i, 0, 255) for i in range(k)]
+        if pattern is not None:
+            intro = [38, 48, 58][c.choice(3)]
+            if pattern == 'rgb-first':
+                vals[0], vals[1] = intro, 2
+            elif pattern == 'rgb-last':
+                vals[1], vals[2] = intro, 2
+            else:
+                vals[1], vals[2] = intro, 5
         if form == 'list':
             seq = PList(vals)
         elif form == 'strlist':
@@ -275,7 +293,8 @@ CL_P3 = [
 
 def sgr_rope(c, tag, spec):
     """ESC [ ... m with one entry per letter of spec: s = a single symbolic code 0..110 that is not 38/48/58,
-    c = 38|48|58;5;n, g = 38|48|58;2;r;g;b, e = an empty parameter, z = the literal 0"""
+    c = 38|48|58;5;n, g = 38|48|58;2;r;g;b, e = an empty parameter, z = the literal 0, i = a bare 38|48|58,
+    h = an incomplete group 38|48|58;5 or ;2"""
     atoms = [('lit', '\x1b[')]
     for i, ch in enumerate(spec):
         if i:
@@ -296,6 +315,10 @@ def sgr_rope(c, tag, spec):
                 atoms.append(('istr', c.named_int(nm + x, 0, 255)))
         elif ch == 'z':
             atoms.append(('lit', '0'))
+        elif ch == 'i':
+            atoms.append(('lit', '%d' % [38, 48, 58][c.choice(3)]))
+        elif ch == 'h':
+            atoms.append(('lit', '%d;%d' % ([38, 48, 58][c.choice(3)], [5, 2][c.choice(2)])))
         elif ch == 'e':
             pass
     atoms.append(('lit', 'm'))
@@ -307,7 +330,7 @@ def p3_items(tier):
     one = ['', 's', 'ss', 'c', 'g', 'sc', 'cs', 'z', 'sz', 'ses']
     for sp in one:
         out.append([[sp], 'plain'])
-    two = [['s', 's'], ['s', ''], ['ss', 's'], ['c', 's'], ['s', 'c'], ['s', 'z'], ['g', 'c']]
+    two = [['s', 's'], ['s', ''], ['ss', 's'], ['c', 's'], ['s', 'c'], ['s', 'z'], ['g', 'c'], ['h', 's'], ['i', 's'], ['sh', 's']]
     if tier != 'quick':
         two += [['sc', 's'], ['ss', 'ss'], ['c', 'c'], ['s', 'sg'], ['sz', 's']]
     for sp in two:
